@@ -42,7 +42,10 @@ BOOLS = ["True", "False"]
 BYTES = ["b''", "b'abc'", "'\\u00e9\\u4e2d'.encode()", "b'\\x00\\x01'", "b'[1]'"]
 DECIMALS = ["Decimal('0')", "Decimal('1')", "Decimal('-1.5')", "Decimal('0.1')", "Decimal('123456789012345')",
             "Decimal('1234567.89012345')", "Decimal('0.000000123456789')", "Decimal('1E+7')", "Decimal('1.5E-7')",
-            "Decimal('-99999.9999')", "Decimal('2.50')", "Decimal('100')", "Decimal('12345678901234.5')"]
+            "Decimal('-99999.9999')", "Decimal('2.50')", "Decimal('100')", "Decimal('12345678901234.5')",
+            # few significant digits, exponents far outside the float range
+            "Decimal('1E+400')", "Decimal('-1.5E+309')", "Decimal('1.5E+17')", "Decimal('-2.5E+300')", "Decimal('1E-400')",
+            "Decimal('7E-320')"]
 DATES = ["date(1,1,1)", "date(1970,1,1)", "date(2020,2,29)", "date(9999,12,31)", "date(999,1,9)"]
 _OFFS = ["", "tzinfo=timezone.utc", "tzinfo=timezone(timedelta(hours=-12))", "tzinfo=timezone(timedelta(hours=-5))",
          "tzinfo=timezone(timedelta(minutes=-30))", "tzinfo=timezone(timedelta(0))",
